@@ -420,6 +420,19 @@ def check_special(e, block):
     if ws[0] == "@res":
         got = res_class(block)
         return None if got in ws[1].split("|") else "specification expects outcome %s, implementation gives %s" % (ws[1], got)
+    if ws[0] == "@col":
+        msgs = [l for l in block if l.startswith("msg")]
+        sel = range(len(msgs)) if ws[1] == "*" else [int(ws[1])]
+        for i in sel:
+            if i >= len(msgs):
+                return "specification expects a message #%d, implementation emits %d" % (i, len(msgs))
+            got = parse_msg(msgs[i])
+            for item in ws[2:]:
+                k, v = item.split("=", 1)
+                g = got.get(k, "0")
+                if g != v:
+                    return "message %d column %s: specification expects %s, implementation reports %s" % (i, k, v, g)
+        return None
     if ws[0] != "@msg":
         return "unknown oracle line " + e[:60]
     idx = int(ws[1])
